@@ -227,8 +227,14 @@ func pcBuild[K comparable, V any](c pcCase, cd pcCodec[K, V], x *verifkit.Ctx) (
 	}
 	y.flushReads()
 	for i := 0; i < c.Big; i++ {
+		// 1 MiB values with mixed costs: a region then spans several 4 MiB blocks, and a cut in a
+		// smaller target leaves room that cheaper entries of a later block would fit into
 		seq++
-		y.set(cd.key(1000+i), cd.val(seq, 1<<20), 1, 0)
+		cost := int64(1)
+		if i%3 != 2 {
+			cost = 7
+		}
+		y.set(cd.key(1000+i), cd.val(seq, 1<<20), cost, 0)
 	}
 	if c.EndWithSet {
 		// a final insert makes the policy demote/evict so that every region is within its capacity
@@ -502,13 +508,17 @@ func genPersist(forC12 bool) func(t *rapid.T) pcCase {
 		}
 		c.Build = rapid.SliceOfN(stepGen, 0, maxSteps).Draw(t, "build")
 		c.EndWithSet = rapid.IntRange(0, 3).Draw(t, "endWithSet") != 0
-		if !forC12 && c.Type == "bytes" && rapid.IntRange(0, 40).Draw(t, "bigClass") == 0 {
-			c.Big = rapid.IntRange(5, 10).Draw(t, "big")
-			if c.MaxSize < c.Big+2 {
-				c.MaxSize = c.Big + 2
+		if !forC12 && c.Type == "bytes" && rapid.IntRange(0, 12).Draw(t, "bigClass") == 0 {
+			c.Big = rapid.IntRange(9, 14).Draw(t, "big")
+			if c.MaxSize < 8*c.Big {
+				c.MaxSize = 8 * c.Big
 			}
 		}
-		switch rapid.IntRange(0, 5).Draw(t, "targetClass") {
+		tc := rapid.IntRange(0, 5).Draw(t, "targetClass")
+		if c.Big > 0 && tc < 3 {
+			tc = 3 // multi-block streams mostly go into a smaller cache
+		}
+		switch tc {
 		case 0, 1, 2:
 			c.TargetSize = c.MaxSize
 		case 3:
